@@ -1190,7 +1190,7 @@ func wideStruct(r *rand.Rand, n int) string {
 func generate(w *run.W) {
 	lci := 0
 	genLegacyContinue(w, func() bool { lci++; return w.Mine(lci) })
-	nb := w.Pick(300, 3000)
+	nb := w.Pick(1200, 6000)
 	for b := 0; b < nb; b++ {
 		if !w.Mine(b) {
 			continue
@@ -1224,7 +1224,7 @@ func generate(w *run.W) {
 			w.Do("v1", &v1Args{Type: genStructV1(r, 0, &pool)})
 		}
 	}
-	no := w.Pick(400, 4000)
+	no := w.Pick(1600, 8000)
 	flagSets := []string{"", "", "omitzero", "omitempty", "omitzero,omitempty", "string", "omitzero,string", "omitempty,string"}
 	for b := 0; b < no; b++ {
 		if !w.Mine(b) {
